@@ -515,4 +515,5 @@ func runC02(c *Ctx) {
 		c.Count(fmt.Sprintf("senddrop:lost=%v,inter=%v", lose >= 0, inter))
 		c.Eval(true, fmt.Sprint("senddrop", F, ng, inter, lose, origs[0].tok[:minInt(60, len(origs[0].tok))]))
 	})
+	runC02S3(c) // round s3: repeated fragments, wake-ups in any number (c02_s3.go)
 }
